@@ -240,17 +240,28 @@ def iterpath(obj, path=None):
 
         elif isinstance(varobj, list):
 
-            for position, item in enumerate(varobj):
-                index = '[{0}]'.format(position)
-                path.append(index)
+            for item in _iterlist(varobj, path):
+                yield item
 
-                yield (path, item)
+        path.pop()
 
-                if isinstance(item, collections.abc.Mapping):
-                    for descendant in iterpath(item, path):
-                        yield descendant
 
-                path.pop()
+def _iterlist(values, path):
+    """Walk a list for ``iterpath``: every element, and whatever is below it
+    (mappings and lists, at any depth)."""
+    for position, item in enumerate(values):
+        index = '[{0}]'.format(position)
+        path.append(index)
+
+        yield (path, item)
+
+        if isinstance(item, collections.abc.Mapping):
+            for descendant in iterpath(item, path):
+                yield descendant
+
+        elif isinstance(item, list):
+            for descendant in _iterlist(item, path):
+                yield descendant
 
         path.pop()
 
